@@ -18,7 +18,7 @@ package spg
 //@   modifies pos, ctr
 //@   loop 1 invariant [C01] aligned:  pos >= old(pos)+4 && (pos-old(pos))%4 == 0
 //@   loop 1 invariant [C01] current:  v == word(tape, pos-4)
-//@   loop 1 invariant [C01] rejected: forall(int(q), old(pos) <= q && q < pos-4 && (q-old(pos))%4 == 0 ==> !acc(n, word(tape, q)))
+//@   loop 1 invariant [C01] rejected: forall(int(q), trig(tape[q]), old(pos) <= q && q < pos-4 && (q-old(pos))%4 == 0 ==> !acc(n, word(tape, q)))
 //@   ensures [C01] consumed: pos >= old(pos)+4 && (pos-old(pos))%4 == 0
 //@   ensures [C01] accepted: acc(n, word(tape, pos-4))
 //@   ensures [C01] residue:  res == pick(n, word(tape, pos-4))
@@ -261,3 +261,55 @@ package spg
 //@        (real(r.Length) - 1.0) * ite(r.SeparatorFunc == nil, 0.0, sfent(r.SeparatorFunc))
 //@   ensures [C08,C15] sep-once: r.SeparatorFunc == nil ==> sfcalls == old(sfcalls) && pos == old(pos) && ctr == old(ctr)
 //@   ensures [C08] sep-called: r.SeparatorFunc != nil ==> sfcalls == old(sfcalls) + 1
+//@   ensures [C04] monotone:   ctr >= old(ctr) && pos >= old(pos)
+
+//@ func (WLRecipe).Generate$1
+//@   inline
+
+//@ func (WLRecipe).Generate
+//@   ghost CW, K, P
+//@   define size() = ite(len(r.list.words) > 4294967295, 4294967295, len(r.list.words))
+//@   define ncap() = ite(r.Capitalize == CSOne, 1, ite(r.Capitalize == CSRandom, r.Length, 0))
+//@   define capd(a) = ite(r.Capitalize == CSFirst, a == 0, ite(r.Capitalize == CSOne, a == oracle(old(ctr), r.Length),
+//@                        ite(r.Capitalize == CSRandom, oracle(old(ctr)+a, 2) == 1, r.Capitalize == CSAll)))
+//@   define word(a) = r.list.words[oracle(CW[a], size())]
+//@   define atom(a) = ite(capd(a), title(word(a)), word(a))
+//@   define sepOf(a) = ite(r.SeparatorFunc == nil, r.SeparatorChar, sepval(r.SeparatorFunc, K[a]))
+//@   define done(i) = ite(i < r.Length-1, i, r.Length-1)
+//@   requires [C13] A-RES: r.Length <= 4294967295
+//@   modifies pos, ctr, sfcalls
+//@   ensures [C13] refuse:  (err != nil) == (r.list == nil || len(r.list.words) == 0 || r.Length < 1)
+//@   ensures [C13] xor:     (res == nil) == (err != nil)
+//@   ensures [C06] entropy: err == nil ==> res.Entropy == real(r.Length) * log2(real(size())) +
+//@        ite(r.list.unCapitalizableCount <= 0, ite(r.Capitalize == CSRandom, real(r.Length), ite(r.Capitalize == CSOne, log2(real(r.Length)), 0.0)), 0.0) +
+//@        (real(r.Length) - 1.0) * ite(r.SeparatorFunc == nil, 0.0, sfent(r.SeparatorFunc))
+//@   ensures [C13,C15] fresh: err == nil ==> fresh(res)
+//@   ensures [C05] first:   err == nil ==> P[0] == 0
+//@   ensures [C05] total:   err == nil ==> len(res.tokens) == P[r.Length]
+//@   ensures [C04,C05,C10] atoms: err == nil ==> forall(int(a), trig(P[a]), 0 <= a && a < r.Length ==> P[a] >= 0 && P[a] < len(res.tokens) &&
+//@        res.tokens[P[a]].tType == AtomType && res.tokens[P[a]].value == atom(a))
+//@   ensures [C05] gaps:    err == nil ==> forall(int(a), int(b), trig(P[a], P[b]), 0 <= a && a < r.Length-1 && b == a+1 ==>
+//@        (sepOf(a) == "" && P[b] == P[a]+1) ||
+//@        (sepOf(a) != "" && P[b] == P[a]+2 && res.tokens[P[a]+1].tType == SeparatorType && res.tokens[P[a]+1].value == sepOf(a)))
+//@   ensures [C05] last:    err == nil ==> P[r.Length] == P[r.Length-1] + 1
+//@   ensures [C04] draws:   err == nil ==> forall(int(a), trig(CW[a]), 0 <= a && a <= r.Length ==> old(ctr) + ncap() <= CW[a] && CW[a] <= ctr) &&
+//@        forall(int(a), int(b), trig(CW[a], CW[b]), 0 <= a && a < b && b <= r.Length ==> CW[a] < CW[b])
+//@   ensures [C04] seps:    err == nil && r.SeparatorFunc != nil ==> forall(int(a), trig(K[a]), 0 <= a && a < r.Length-1 ==> K[a] == old(sfcalls) + a)
+//@   loop 1 invariant [C04] rnd:    0 <= i && i <= r.Length && ctr == old(ctr) + i && sfcalls == old(sfcalls)
+//@   loop 1 invariant [C04] rndmap: forall(int(a), 0 <= a && a < i ==> lookup(capWords, a) == (oracle(old(ctr)+a, 2) == 1)) &&
+//@        forall(int(a), a < 0 || a >= i ==> !dom(capWords, a))
+//@   loop 2 invariant [C05] all:    0 <= i && i <= r.Length && ctr == old(ctr) && sfcalls == old(sfcalls) && forall(int(a), 0 <= a && a < i ==> lookup(capWords, a))
+//@   loop 3 invariant [C05] idx:    0 <= i && i <= r.Length && P[i] == len(ts) && CW[i] == ctr && K[i] == sfcalls && P[0] == 0
+//@   loop 3 invariant [C05] caps:   forall(int(a), 0 <= a && a < r.Length ==> lookup(capWords, a) == capd(a))
+//@   loop 3 invariant [C04] ctrs:   forall(int(a), trig(CW[a]), 0 <= a && a <= i ==> old(ctr) + ncap() <= CW[a] && CW[a] <= ctr) &&
+//@        forall(int(a), int(b), trig(CW[a], CW[b]), 0 <= a && a < b && b <= i ==> CW[a] < CW[b])
+//@   loop 3 invariant [C04] sfc:    (r.SeparatorFunc == nil ==> sfcalls == old(sfcalls)) &&
+//@        (r.SeparatorFunc != nil ==> sfcalls == old(sfcalls) + done(i) && forall(int(a), trig(K[a]), 0 <= a && a < done(i) ==> K[a] == old(sfcalls) + a))
+//@   loop 3 invariant [C05] toks:   forall(int(a), trig(P[a]), 0 <= a && a < i ==> P[a] >= 0 && P[a] < len(ts) && ts[P[a]].tType == AtomType && ts[P[a]].value == atom(a))
+//@   loop 3 invariant [C05] gaps:   forall(int(a), int(b), trig(P[a], P[b]), 0 <= a && a < i && a < r.Length-1 && b == a+1 ==>
+//@        (sepOf(a) == "" && P[b] == P[a]+1) ||
+//@        (sepOf(a) != "" && P[b] == P[a]+2 && P[a]+1 < len(ts) && ts[P[a]+1].tType == SeparatorType && ts[P[a]+1].value == sepOf(a)))
+//@   loop 3 invariant [C05] last:   i == r.Length && i > 0 ==> P[i] == P[i-1] + 1
+//@   loop 3 ghost CW[i] = ctr
+//@   loop 3 ghost K[i] = sfcalls
+//@   loop 3 ghost P[i] = len(ts)
